@@ -83,6 +83,10 @@ fn recipe_strategy() -> impl Strategy<Value = Recipe> {
         1 => any::<bool>().prop_map(|p| Recipe::Foreign { same_addr: p }),
         1 => (any::<bool>(), 0u8..4).prop_map(|(a, e)| Recipe::Oversize { authentic: a, excess: e }),
         1 => proptest::collection::vec(any::<u8>(), 0..40).prop_map(Recipe::Random),
+        // frames around the sizes of the small radio buffers (64 / 255 bytes): a stray packet of that
+        // length, or an authentic frame with a payload that long
+        1 => prop_oneof![62usize..=67, 253usize..=255].prop_flat_map(|n| proptest::collection::vec(any::<u8>(), n..=n)).prop_map(Recipe::Random),
+        1 => (1i64..3, prop_oneof![48u8..=54, 238u8..=242]).prop_map(|(d, l)| Recipe::Auth { delta: d, confirmed: false, port: Some(5), payload_len: l, fopts: vec![], frm_cmds: vec![], ack: false, fpending: false }),
     ]
 }
 
@@ -100,9 +104,14 @@ pub fn history_strategy() -> impl Strategy<Value = History> {
         3 => (0xFFFF_FFFAu32..=0xFFFF_FFFF),
         1 => any::<u32>(),
     ];
-    (0usize..3, 0usize..9, starts, any::<u64>(), any::<bool>()).prop_flat_map(|(fk, ri, start, seed, nb_async)| {
-        let front = [FrontKind::Nb, FrontKind::Async, FrontKind::AsyncClassC][fk];
-        let class_c = front == FrontKind::AsyncClassC;
+    // front-ends: the three usual ones, and (one history in four) a radio buffer of 64 / 255 bytes or the
+    // crate's default downlink queue of depth 1
+    let fronts = prop_oneof![
+        9 => (0usize..3).prop_map(|k| [FrontKind::Nb, FrontKind::Async, FrontKind::AsyncClassC][k]),
+        3 => (0usize..6).prop_map(|k| [FrontKind::NbBuf64, FrontKind::NbBuf255, FrontKind::AsyncBuf64, FrontKind::AsyncBuf255, FrontKind::NbQ1, FrontKind::AsyncQ1][k]),
+    ];
+    (fronts, 0usize..9, starts, any::<u64>(), any::<bool>()).prop_flat_map(|(front, ri, start, seed, nb_async)| {
+        let class_c = front.class_c();
         let mut sv: Vec<(u32, BoxedStrategy<Step>)> = vec![
             (8, (1u8..=200, 0u8..30, any::<bool>(), plan_strategy(class_c)).prop_map(|(port, len, confirmed, rx)| Step::Send { port, len, confirmed, rx }).boxed()),
             (1, (1u16..4).prop_map(Step::Silence).boxed()),
